@@ -621,4 +621,223 @@ theorem compile_acc (st : St) (outs : List OutDecl) (m : MirProg) (h : compile s
         exact count_eq_one_of_nodup' ok2.ai.names this
       · exact count_eq_one_of_nodup' ok2.lits (hcov.2 e he v i ty heq)
 
+/-! ### parties -/
+
+/-- every listed input's party is a listed party -/
+def PartiesCover (acc : CAcc) : Prop := ∀ i ∈ accIns acc.inputs, i.party ∈ acc.parties
+
+theorem mem_insertSorted' (x y : String) (xs : List String) : y ∈ insertSorted x xs ↔ y = x ∨ y ∈ xs := by
+  induction xs with
+  | nil => simp [insertSorted]
+  | cons z zs ih =>
+    simp only [insertSorted]
+    split
+    · rename_i h; subst h; simp
+    · split
+      · simp
+      · simp only [List.mem_cons, ih]
+        constructor
+        · rintro (h | h | h) <;> simp [h]
+        · rintro (h | h | h) <;> simp [h]
+
+theorem addInput_parties (acc acc' : CAcc) (i : MirInput) (h : addInput acc i = .ok acc') :
+    acc'.parties = insertSorted i.party acc.parties ∧
+    ∀ j ∈ accIns acc'.inputs, j = i ∨ j ∈ accIns acc.inputs := by
+  simp only [addInput] at h
+  split at h
+  · simp at h
+  · simp at h; subst h
+    refine ⟨rfl, ?_⟩
+    intro j hj
+    obtain ⟨b, hb1, hb2⟩ := mem_accIns.1 hj
+    simp only [List.mem_map] at hb1
+    obtain ⟨b0, hb0, rfl⟩ := hb1
+    have hsub : ∀ k ∈ b0.2, k ∈ accIns acc.inputs := by
+      intro k hk
+      rw [← accIns_insertParty i.party]
+      exact mem_accIns.2 ⟨b0, hb0, hk⟩
+    split at hb2
+    · -- upserted bucket
+      simp only at hb2
+      have : ∀ (is : List MirInput), j ∈ upsertInput i is → j = i ∨ j ∈ is := by
+        intro is
+        induction is with
+        | nil => simp [upsertInput]
+        | cons a as ih =>
+          simp only [upsertInput]
+          split
+          · simp; rintro (h | h) <;> simp [h]
+          · simp only [List.mem_cons]
+            rintro (h | h)
+            · exact .inr (.inl h)
+            · rcases ih h with h1 | h1
+              · exact .inl h1
+              · exact .inr (.inr h1)
+      rcases this _ hb2 with h1 | h1
+      · exact .inl h1
+      · exact .inr (hsub j h1)
+    · exact .inr (hsub j hb2)
+
+theorem processOp_parties (st : St) (k : Id) (op : AstOp) (functions : Table) (acc acc' : CAcc) (ex : Option (Id × AstOp))
+    (h : processOp st k op functions acc = .ok (acc', ex)) (hc : PartiesCover acc) :
+    PartiesCover acc' ∧ ∀ p ∈ acc.parties, p ∈ acc'.parties := by
+  cases op <;> simp only [processOp] at h
+  case input name party doc ty =>
+    simp only [bind, Except.bind] at h
+    split at h
+    · simp at h
+    · rename_i acc1 hadd
+      simp at h; obtain ⟨rfl, _⟩ := h
+      obtain ⟨hp, hj⟩ := addInput_parties acc acc1 _ hadd
+      refine ⟨?_, ?_⟩
+      · intro j hjm
+        rw [hp]
+        rcases hj j hjm with rfl | h1
+        · exact (mem_insertSorted' _ _ _).2 (.inl rfl)
+        · exact (mem_insertSorted' _ _ _).2 (.inr (hc j h1))
+      · intro p hpm; rw [hp]; exact (mem_insertSorted' _ _ _).2 (.inr hpm)
+  case literal v i ty =>
+    simp at h; obtain ⟨rfl, _⟩ := h
+    exact ⟨hc, fun _ h => h⟩
+  case map c fn ty =>
+    have : acc' = acc := by
+      split at h
+      · simp at h; exact h.1.symm
+      · split at h
+        · simp at h; exact h.1.symm
+        · simp at h
+    subst this; exact ⟨hc, fun _ h => h⟩
+  case reduce c fn i ty =>
+    have : acc' = acc := by
+      split at h
+      · simp at h; exact h.1.symm
+      · split at h
+        · simp at h; exact h.1.symm
+        · simp at h
+    subst this; exact ⟨hc, fun _ h => h⟩
+  case call as fn ty =>
+    have : acc' = acc := by
+      split at h
+      · simp at h; exact h.1.symm
+      · split at h
+        · simp at h; exact h.1.symm
+        · simp at h
+    subst this; exact ⟨hc, fun _ h => h⟩
+  case function name args child ty =>
+    have : acc' = acc := by
+      split at h <;> (simp at h; exact h.1.symm)
+    subst this; exact ⟨hc, fun _ h => h⟩
+  all_goals
+    simp at h; obtain ⟨rfl, _⟩ := h
+    exact ⟨hc, fun _ h => h⟩
+
+theorem traverse_parties (st : St) (functions : Table) :
+    ∀ (fuel : Nat) (stack : List Id) (table extra : Table) (acc : CAcc) (table' extra' : Table) (acc' : CAcc),
+    traverse st functions fuel stack table extra acc = .ok (table', extra', acc') → PartiesCover acc →
+      PartiesCover acc' ∧ ∀ p ∈ acc.parties, p ∈ acc'.parties := by
+  intro fuel
+  induction fuel with
+  | zero =>
+    intro stack table extra acc table' extra' acc' h hc
+    cases stack with
+    | nil => simp [traverse] at h; obtain ⟨_, _, rfl⟩ := h; exact ⟨hc, fun _ h => h⟩
+    | cons k s => simp [traverse] at h
+  | succ fuel ih =>
+    intro stack table extra acc table' extra' acc' h hc
+    cases stack with
+    | nil => simp [traverse] at h; obtain ⟨_, _, rfl⟩ := h; exact ⟨hc, fun _ h => h⟩
+    | cons k s =>
+      simp only [traverse] at h
+      split at h
+      · exact ih s table extra acc _ _ _ h hc
+      · split at h
+        · simp at h
+        · rename_i op hop
+          split at h
+          · simp at h
+          · rename_i acc1 ex hproc
+            obtain ⟨a, b⟩ := processOp_parties st k op functions acc acc1 ex hproc hc
+            obtain ⟨c, d⟩ := ih _ _ _ _ _ _ _ h a
+            exact ⟨c, fun p hp => d p (b p hp)⟩
+
+theorem compileOutputs_parties (st : St) :
+    ∀ (outs : List OutDecl) (table functions : Table) (mouts : List MirOutput) (acc : CAcc)
+      (table' functions' : Table) (mouts' : List MirOutput) (acc' : CAcc),
+    compileOutputs st outs table functions mouts acc = .ok (table', functions', mouts', acc') →
+    PartiesCover acc → (∀ o ∈ mouts, o.party ∈ acc.parties) →
+      PartiesCover acc' ∧ (∀ o ∈ mouts', o.party ∈ acc'.parties) := by
+  intro outs
+  induction outs with
+  | nil =>
+    intro table functions mouts acc table' functions' mouts' acc' h hc ho
+    simp [compileOutputs] at h
+    obtain ⟨_, _, rfl, rfl⟩ := h
+    exact ⟨hc, ho⟩
+  | cons o os ih =>
+    intro table functions mouts acc table' functions' mouts' acc' h hc ho
+    simp only [compileOutputs] at h
+    split at h
+    · simp at h
+    · rename_i t1 ex1 acc1 htr
+      split at h
+      · simp at h
+      · rename_i op hop
+        obtain ⟨a, b⟩ := traverse_parties st functions _ _ _ _ _ _ _ _ htr hc
+        apply ih _ _ _ _ _ _ _ _ h
+        · intro j hj
+          exact (mem_insertSorted' _ _ _).2 (.inr (a j hj))
+        · intro x hx
+          rcases List.mem_append.1 hx with hx | hx
+          · exact (mem_insertSorted' _ _ _).2 (.inr (b _ (ho x hx)))
+          · simp at hx; subst hx; exact (mem_insertSorted' _ _ _).2 (.inl rfl)
+
+theorem emitFunctions_parties (st : St) :
+    ∀ (fuel : Nat) (stack functions : Table) (out : List MirFn) (acc : CAcc) (out' : List MirFn) (acc' : CAcc),
+    emitFunctions st fuel stack functions out acc = .ok (out', acc') → PartiesCover acc →
+      PartiesCover acc' ∧ ∀ p ∈ acc.parties, p ∈ acc'.parties := by
+  intro fuel
+  induction fuel with
+  | zero =>
+    intro stack functions out acc out' acc' h hc
+    cases stack with
+    | nil => simp [emitFunctions] at h; obtain ⟨_, rfl⟩ := h; exact ⟨hc, fun _ h => h⟩
+    | cons x xs => simp [emitFunctions] at h
+  | succ fuel ih =>
+    intro stack functions out acc out' acc' h hc
+    cases stack with
+    | nil => simp [emitFunctions] at h; obtain ⟨_, rfl⟩ := h; exact ⟨hc, fun _ h => h⟩
+    | cons x xs =>
+      obtain ⟨k, f⟩ := x
+      simp only [emitFunctions] at h
+      split at h
+      · split at h
+        · simp at h
+        · rename_i t1 ex1 acc1 htr
+          split at h
+          · simp at h
+          · obtain ⟨a, b⟩ := traverse_parties st functions _ _ _ _ _ _ _ _ htr hc
+            obtain ⟨c, d⟩ := ih _ _ _ _ _ _ h a
+            exact ⟨c, fun p hp => d p (b p hp)⟩
+      all_goals simp at h
+
+/-- **Every party named by a listed input or by an output is listed.** -/
+theorem compile_parties_cover (st : St) (outs : List OutDecl) (m : MirProg) (h : compile st outs = .ok m) :
+    (∀ i ∈ m.inputs, i.party ∈ m.parties) ∧ (∀ o ∈ m.outputs, o.party ∈ m.parties) := by
+  simp only [compile, bind, Except.bind] at h
+  split at h
+  · simp at h
+  · rename_i r hco
+    obtain ⟨table, functions, mouts, acc⟩ := r
+    simp only at h
+    split at h
+    · simp at h
+    · rename_i r2 hef
+      obtain ⟨fns, acc2⟩ := r2
+      injection h with h
+      subst h
+      obtain ⟨a, b⟩ := compileOutputs_parties st outs [] [] [] {} _ _ _ _ hco (by intro j hj; simp [accIns] at hj) (by simp)
+      obtain ⟨c, d⟩ := emitFunctions_parties st _ _ _ _ _ _ _ hef a
+      exact ⟨c, fun o ho => d _ (b o ho)⟩
+
+
 end NadaVerif.Lemmas
